@@ -5,7 +5,6 @@ import (
 	"fmt"
 	"os"
 	"path/filepath"
-	"runtime"
 	"sort"
 	"strconv"
 	"strings"
@@ -146,14 +145,11 @@ func cmdCheck(args []string) int {
 		fmt.Fprintf(os.Stderr, "govc: property %s generated no obligations (vacuity guard)\n", prop)
 		return 2
 	}
-	par := runtime.NumCPU()
-	if par > 12 {
-		par = 12
-	}
+	par := parallelism(12)
 	// obligations listed as known findings are expected to fail: give them a short budget only
 	expectFail := map[string]bool{}
 	for _, f := range findings {
-		if f.Property == prop && f.Kind == "finding" {
+		if f.Kind == "finding" { // a finding is identified by its obligation; it is reported under every property the obligation serves
 			expectFail[f.Obligation] = true
 		}
 	}
@@ -174,7 +170,7 @@ func cmdCheck(args []string) int {
 	var discharged, failed []*Obligation
 	kf := map[string][]Finding{}
 	for _, f := range findings {
-		if f.Property == prop && f.Kind == "finding" {
+		if f.Kind == "finding" { // a finding is identified by its obligation; it is reported under every property the obligation serves
 			kf[f.Obligation] = append(kf[f.Obligation], f)
 		}
 	}
@@ -338,7 +334,7 @@ func (e *Engine) WriteReplay(prop string, o *Obligation, outDir string) string {
 
 // CheckCovers: every cover must be satisfiable (sat or unknown); unsat means vacuous assumptions.
 func (e *Engine) CheckCovers(covers []*Obligation, outDir string) string {
-	e.Discharge(covers, filepath.Join(outDir, "covers"), 3, runtime.NumCPU()/2, false)
+	e.Discharge(covers, filepath.Join(outDir, "covers"), 3, parallelism(8), false)
 	for _, o := range covers {
 		if o.Status == "unsat" {
 			return o.Name + ": assumptions are contradictory"
